@@ -70,7 +70,8 @@ theorem addTemplatesE_eq (fn text ns : Bytes) (ae : Autoescape) : ∀ (cmds : Li
     eo (addTemplatesE fn text ns ae cmds prev reg) = addTemplates fn text ns ae cmds prev reg
   | [], _, _ => rfl
   | c :: rest, prev, reg => by
-    cases c <;> simp only [addTemplatesE, addTemplates] <;> try exact addTemplatesE_eq fn text ns ae rest _ _
+    cases c <;> simp only [addTemplatesE, addTemplates] <;>
+      first | exact addTemplatesE_eq fn text ns ae rest _ _ | rfl | skip
     case template pos name b ae' k =>
       cases b with
       | mk bpos cmds => exact eo_ite2 _ _ _ _ _ _ (addTemplatesE_eq fn text ns ae rest _ _)
@@ -306,6 +307,25 @@ def tLets : Template :=
     body := .mk 0 (.cons (.letValue 0 [112] (.int 0 1)) (.cons (.letValue 0 [113] (.int 0 2)) (.cons (.letValue 0 [114] (.int 0 3))
       (.cons (.print 0 (.dataRef 0 [113] .nil) []) .nil)))) }
 example : checkE [tLets] = .error ⟨[116], .unusedLets [[112], [114]]⟩ := by decide
+
+/-- `{isFirst($a)}` with `a` a param: "…: the argument of isFirst must be the variable of an enclosing foreach or
+    for loop"; in the body of `{foreach $a in $a}` the same print is accepted -/
+def tLoopFn (inLoop : Bool) : Template :=
+  let p : Cmd := .print 0 (.func 0 [105, 115, 70, 105, 114, 115, 116] (.cons (.dataRef 0 [97] .nil) .nil)) []
+  { name := [116], params := [⟨[97], false⟩],
+    body := .mk 0 (.cons (if inLoop then .forc 0 [97] (.dataRef 0 [97] .nil) (.mk 0 (.cons p .nil)) none else p) .nil) }
+example : checkE [tLoopFn false] = .error ⟨[116], .loopFuncArg [105, 115, 70, 105, 114, 115, 116]⟩ ∧
+    checkE [tLoopFn true] = .ok () := by decide
+
+/-- `{$z}` written after the template of a file (never checked, never rendered): `Registry.Add` answers
+    "command outside of a template: {$z}" (/repo b05b95a); raw text and doc comments there are fine -/
+def fileOutside (c : Cmd) : SoyFile :=
+  { name := [100], text := [], body := [.namespace 0 [110, 100] .unspecified,
+      .template 0 [110, 100, 46, 119] (.mk 0 (.cons (.rawText 0 [120]) .nil)) .unspecified false, c] }
+example : compileE [fileB, fileOutside (.print 0 (.dataRef 0 [122] .nil) [])] = .error (.reg .commandOutside) ∧
+    compileE [fileOutside (.letValue 0 [105, 106] (.int 0 1)), fileB] = .error (.reg .commandOutside) ∧
+    compileE [fileB, fileOutside (.rawText 0 [10])] = .ok () ∧
+    compileE [fileB, fileOutside (.soyDoc 0 [])] = .ok () := by decide
 
 /-- the theorem applied: the registry of `[fileA, fileB, fileBad]` has exactly one failing template -/
 example : compileE [fileB, fileA, fileBad] = compileE [fileA, fileB, fileBad] := by
